@@ -419,6 +419,9 @@ def search_discipline(P, R, rule='C19.GRD.3'):
                     ok = True       # no child in that direction
                 if isinstance(l, dict) and l.get('k') == 'callref':
                     ok = True
+                # `while ((res = compare(...)) != 0)`: the comparison result, assigned in the condition
+                if isinstance(l, dict) and l.get('k') == 'bin' and l.get('op') == '=' and isinstance(l.get('r'), dict) and any(x.get('k') == 'callref' for x in walk(l['r'])) and const_of(r[2]) == 0:
+                    ok = True
             n += 1
             R.ob(rule, ok, sp, 'the descent of the splay search is left only on "found" or "no child that way" (%s)' % e.describe(), key='descent-exit:%s' % ('ok' if ok else e.describe()))
     # (b) results used
